@@ -374,6 +374,12 @@ def run(ctx: Any, prog: Program) -> None:
                 if isinstance(g_, ast.Constant):
                     return [g_]
         return [e]
+    # the token text itself is not rewritten before it is stored: the loop variable holding it is only ever bound by the loop
+    for tv_ in sorted(tok_vars):
+        rebinds_ = [a for a in ast.walk(parse) if isinstance(a, (ast.Assign, ast.AugAssign, ast.AnnAssign)) for t in (a.targets if isinstance(a, ast.Assign) else [a.target])
+                    for x in ast.walk(t) if isinstance(x, ast.Name) and x.id == tv_ and isinstance(x.ctx, ast.Store)]
+        ctx.check('C01.R4', not rebinds_, kv, rebinds_[0] if rebinds_ else parse, f'Keyvalues.parse rewrites the token text before using it (`{U(rebinds_[0])[:70] if rebinds_ else ""}`): a name (or value) that the rewrite changes - a decomposed '
+                  'accent under Unicode normalisation, say - is stored as another string than the writer produced', text=f'token variable `{tv_}` is bound by the loop only')
     for ns in name_stores:
         bad = [a for a in _alts(ns.value) if not (isinstance(a, ast.Name) and a.id in tok_vars) and not isinstance(a, ast.Constant)]          # literals: the root, the placeholder of a skipped block
         if bad and not any(isinstance(c, ast.Call) and isinstance(c.func, ast.Attribute) and c.func.attr in ('casefold', 'lower', 'upper', 'strip', 'title', 'replace') for b in bad for c in ast.walk(b)):
@@ -658,6 +664,7 @@ def _in_orelse(ifnode: ast.If, node: ast.AST, mod: Any) -> bool:
 
 
 MUTANTS = [
+    {'id': 'parse_normalises_names', 'file': 'keyvalues.py', 'find': "                # Skip calling __init__ for speed. Value needs to be set\n", 'replace': "                token_value = token_value.strip()\n                # Skip calling __init__ for speed. Value needs to be set\n", 'expect': 'C01.R4', 'note': 'round 13'},
     {'id': 'parse_drops_hash_names', 'file': 'keyvalues.py', 'find': "                    keyvalue._value = prop_value\n\n                    # Check for flags.", 'replace': "                    if token_value.startswith('#'):\n                        continue\n                    keyvalue._value = prop_value\n\n                    # Check for flags.", 'expect': 'C01.R11', 'note': 'round 12'},
     {'id': 'parsed_name_shares_folded_string', 'file': 'keyvalues.py', 'find': "                keyvalue.real_name = sys.intern(token_value)\n", 'replace': "                folded_name = sys.intern(token_value.casefold())\n                keyvalue._real_name = folded_name if token_value.islower() else sys.intern(token_value)\n", 'expect': 'C01.R4'},
     {'id': 'parse_prefilters_chunks', 'file': 'keyvalues.py', 'find': "            tokenizer = Tokenizer(\n                file_contents,", 'replace': "            if not isinstance(file_contents, (str, bytes)):\n                file_contents = (ln for ln in file_contents if not ln.startswith('//'))\n            tokenizer = Tokenizer(\n                file_contents,", 'expect': 'C01.R4'},
